@@ -75,10 +75,21 @@ def run(props, only=None):
             ok = False
             print("    " + (res.get("detail") or res.get("tail") or "").replace("\n", "\n    "))
     out = os.path.join(VERIF, "evidence", "sensitivity.json")
+    if only:
+        # partial run: merge into the existing report
+        try:
+            old = json.load(open(out))["rows"]
+        except Exception:  # noqa: BLE001
+            old = []
+        names = set((r["prop"], r["name"]) for r in rows)
+        rows_all = [r for r in old if (r["prop"], r["name"]) not in names] + rows
+    else:
+        rows_all = rows
     try:
         os.makedirs(os.path.dirname(out), exist_ok=True)
         with open(out, "w") as f:
-            json.dump({"rows": rows, "caught": sum(r["status"] == "caught" for r in rows), "total": len(rows)}, f, indent=1)
+            rows_all = sorted(rows_all, key=lambda r: (r["prop"], r["name"]))
+            json.dump({"rows": rows_all, "caught": sum(r["status"] == "caught" for r in rows_all), "total": len(rows_all)}, f, indent=1)
     except OSError:
         pass
     print("sensitivity: %d of %d caught" % (sum(r["status"] == "caught" for r in rows), len(rows)))
